@@ -800,15 +800,16 @@ func bitPosition(lf *LoopForm, z *Polyizer, mask ssa.Value) (Poly, bool) {
 			if !ok || stripConv(b.X) != ssa.Value(phi) {
 				return nil, false
 			}
-			one, ok := constInt64(b.Y)
-			if !ok || one != 1 {
+			// one bit position per iteration: mask >> 1 / mask / 2 (unsigned), mask << 1 / mask * 2
+			cy, ok := constInt64(b.Y)
+			if !ok {
 				return nil, false
 			}
 			d := int64(0)
-			switch b.Op {
-			case token.SHR:
+			switch {
+			case b.Op == token.SHR && cy == 1, b.Op == token.QUO && cy == 2 && isUnsignedInt(b.Type()):
 				d = -1
-			case token.SHL:
+			case b.Op == token.SHL && cy == 1, b.Op == token.MUL && cy == 2:
 				d = 1
 			default:
 				return nil, false
@@ -1224,9 +1225,22 @@ func runC02(c *Ctx) {
 	if sig != nil {
 		stores, _, _ := cellAccesses(sig.cell)
 		okInit, nInit := true, 0
+		visits := go_.callNodes(x.visit)
 		for _, st := range stores {
 			if st.Parent() != x.bootAlloc {
 				continue
+			}
+			// only what is stored before the scan initialises the signal (with
+			// named results every return stores its operands into them)
+			if sn, ok := go_.Idx[st]; ok && len(visits) > 0 {
+				r := go_.Reach([]int{sn}, nil, nil)
+				before := false
+				for _, v := range visits {
+					before = before || r[v]
+				}
+				if !before {
+					continue
+				}
 			}
 			nInit++
 			switch {
